@@ -192,6 +192,16 @@ func (f *Func) redefineInputs(opts ...Arg) (reflect.Type, error) {
 
 		switch v := v.(type) {
 		case *valueVertex:
+			// Two required values can share a name (different types or
+			// subtypes). The struct we build can't represent that.
+			fieldName := strings.ToUpper(v.Name)
+			for _, existing := range sf {
+				if existing.Name == fieldName {
+					return nil, fmt.Errorf(
+						"redefined function would require multiple inputs named %q", v.Name)
+				}
+			}
+
 			sf = append(sf, reflect.StructField{
 				Name: strings.ToUpper(v.Name),
 				Type: v.Type,
